@@ -5,22 +5,22 @@
 // law_eq_trans, law_merge_idem) for every implementor other than `()`.  `ContentAttributes<A>` is the only other implementor in
 // the crate.  This unit extracts its real `eq`, `merge`, `clone`, `new`, `from_attrs` (+ the real structs and the real
 // `Clone for ContentAttribute`) and PROVES the impl against that contract with
-//   wf(x)           := nodup(x@)            no two elements of the attribute list are `==`
-//   eq_spec(a, b)   := eq_real_spec(a@, b@) = same length && every element of a occurs in b     (what the real `eq` computes:
-//                      proved, `ensures` of eq)
+//   wf(x)           := true                 (every list is a valid value: duplicates are harmless)
+//   eq_spec(a, b)   := eq_set_spec(a@, b@) = every element of a occurs in b && every element of b occurs in a
+//                      (what the real `eq` computes: proved, `ensures` of eq)
 //   merge_spec(a,b) := the value whose list is merge_seq(a@, b@) = a followed by the elements of b that do not occur in what has
 //                      been built so far (b's order, first occurrences): exactly what the loop builds (proved)
 //
 // PROVED
-//   (1) lemma_eq_is_set_equality: on wf values eq_real_spec(a, b) <==> same_set(a, b) (forall x: x occurs in a <==> x occurs in
-//       b); hence `==` restricted to wf values is an equivalence: law_eq_refl / law_eq_sym / law_eq_trans.  Symmetry is the
-//       pigeonhole argument (lemma_pigeonhole, lemma_covers: induction, removing one element).  lemma_eq_sym: symmetry needs wf
-//       of the LEFT operand only; it is FALSE without it (lemma_witness_asymmetry, see FINDING).
-//   (2) merge: preserves wf and computes merge_spec (the inherited trait contract + the same over the lists);
-//       law_merge_idem (a ~ b ==> merge_seq(a, b) == a: nothing is appended); lemma_merge_seq_union: merge is the set union,
-//       lemma_merge_seq_wf: `a` stays a prefix.
+//   (1) lemma_eq_is_set_equality: eq_set_spec(a, b) <==> same_set(a, b) (forall x: x occurs in a <==> x occurs in b) for ALL
+//       lists, with or without duplicates; hence `==` is an equivalence on all values: law_eq_refl / law_eq_sym / law_eq_trans.
+//   (2) merge: computes merge_spec (the inherited trait contract + the same over the lists); law_merge_idem (a ~ b ==>
+//       merge_seq(a, b) == a: nothing is appended); lemma_merge_seq_union: merge is the set union; lemma_merge_seq_prefix: `a`
+//       stays a prefix and merge introduces no duplicates.
 //   (3) clone returns a structurally equal value (base.rs axiom_clone_merge is a THEOREM for this implementor, given
-//       axiom_vec_value_is_contents); new() is empty and wf.
+//       axiom_vec_value_is_contents); new() is empty; from_attrs keeps the list.
+//   (4) lemma_witness_repaired documents the repaired defect (below): for a != b, [a, a] and [a, b] are UNEQUAL in both
+//       directions, and [a, a] ~ [a] in both directions.
 //
 // TRUSTED (each with its documented contract at the declaration)
 //   axiom_attr_eq_is_equivalence   the ONE element-equality axiom group: derived `==` of ContentAttribute<A>
@@ -29,63 +29,50 @@
 //                                  (never verified, only its existence is needed); its eq_spec stays uninterpreted (OPAQUE).
 //   <[T]>::contains                std: "Returns true if the slice contains an element with the given value." (vstd: no spec)
 //   vx_iter_all                    std Iterator::all over slice::iter(): "Tests if every element of the iterator matches a
-//                                  predicate."  Body = the std call (like vx_partition_point / rule R2); reached through the logged
-//                                  SUB `self.0.iter().all(|a| other.0.contains(a))` -> `vx_iter_all(&self.0, |a| other.0.contains(a))`.
-//                                  See EXTRACTOR GAPS.  The REST of `eq` (length check, early return, the closure) is the real
-//                                  text and is VERIFIED: `eq`'s body is NOT trusted.
+//                                  predicate."  Body = the std call (like vx_partition_point / rule R2); reached through two logged
+//                                  SUBs `X.0.iter().all(|a| Y.0.contains(a))` -> `vx_iter_all(&X.0, |a| Y.0.contains(a))`.
+//                                  See EXTRACTOR GAPS.  The rest of `eq` (the `&&`, the closures) is the real text and is
+//                                  VERIFIED: `eq`'s body is NOT trusted.
 //   axiom_vec_value_is_contents    the mathematical value of a (Small)Vec is its element sequence (vstd has ext-equality axioms for
 //                                  Seq / slice / array but none for Vec; vstd has no other spec observation of a Vec).  Needed
 //                                  because base.rs states merge's and clone's results with structural `==` on the implementor.
-//   Vec::dedup                     std contract; used ONLY by the failing FINDING obligation of IdMap::from_set
-//   vstd's own specifications of Vec::{new, len, push, clone, iter}, Arc::clone
+//   vstd's own specifications of Vec::{new, push, clone, iter}, Arc::clone
 //
 // REWRITES  R1 (SmallVec -> Vec), SUB `in &other.0` -> `in other.0.iter()` (std: IntoIterator for &SmallVec / &Vec is iter()),
-//   SUB for Iterator::all (above), SUB `attrs.into()` -> `attrs` in the two IdMap steps (SmallVec::from(Vec) keeps the elements;
-//   after R1 the conversion is Vec -> Vec), R18 statement regions for the two IdMap steps (`ensure_attrs` dropped: it replaces
-//   each element by an `==` one from the interning cache, it neither removes nor reorders).
+//   the two SUBs for Iterator::all (above).
 //
-// FINDING (named obligations, EXPECTED TO FAIL): "every value that reaches the interval layer through the public API is wf"
-//     ids_attrs::from_attrs::post           :: nodup(r@)            ContentAttributes::from_attrs(attrs) takes the vector as is
-//     ids_attrs::idmap_insert_attrs::post   :: content_attrs.wf()   IdMap::insert(range, attrs) wraps the caller's Vec as is
-//     ids_attrs::idmap_from_set_attrs::post :: content_attrs.wf()   IdMap::from_set: `attrs.dedup()` removes ADJACENT duplicates
-//                                                                   only, [a, b, a] survives (lemma_witness_dedup)
-//   (not lifted, same defect: AttrRange::with_attrs; IdMap::decode: `attrs.push(visited_attributions[attr_id].clone())` with an
-//   attr_id repeated on the wire.)  ids_lift::idmap_insert REQUIRES content_attrs.wf(); nothing establishes it.
-//   Witness: x = [a, a], y = [a, b] with a != b.   x == y is TRUE (same length, every element of x occurs in y) but y == x is
-//   FALSE (b does not occur in x): `==` is not symmetric, so law_eq_sym (A3) is false for reachable values and "equal sets
-//   compare equal" breaks.  lemma_witness_asymmetry proves this for every pair a != b from the spec of the real `eq`.
-//   Replay on the real crate (units/ids_attrs/replay.rs, public API only, a = ("k","a"), b = ("k","b"), client 1):
-//     from_attrs([a,a]) == from_attrs([a,b])  -> true;   from_attrs([a,b]) == from_attrs([a,a])  -> false
-//     m.insert([0,3), vec![a,a]); m.insert([3,6), vec![a,b])   -> ONE entry [0..6) [a,a]: push_coalesced's `last.1 == value`
-//         is true, the ranges are coalesced and attribute b is LOST for clocks 3..6 (attributions(clock 4) = [a,a]); with
-//         vec![a] instead of vec![a,a] the result is [0..3) [a]; [3..6) [a,b] as it should be
-//     p = {[0,3): [a,a]}, q = {[0,3): [a,b]}:  p == q -> true, q == p -> false;  p.intersect_with(q) = [a,a,b],
-//         q.intersect_with(p) = [a,b], and the two results are != in both directions
-//     IdMap::from_set({0..3}, vec![a,b,a]) stores [a,b,a] and is != from_set({0..3}, vec![a,b])
+// REPAIRED DEFECT (history; /repo commit 6236824).  `eq` used to be `len equal && every element of self occurs in other`, which
+//   is set equality only on duplicate-free lists, and duplicate lists are constructible through the public API
+//   (ContentAttributes::from_attrs, IdMap::insert, IdMap::from_set (dedup() removes adjacent duplicates only), IdMap::decode).
+//   Witness [a, a] vs [a, b], a != b: `[a,a] == [a,b]` was true and `[a,b] == [a,a]` false; IdMap::insert([0,3), vec![a,a]) followed
+//   by insert([3,6), vec![a,b]) coalesced into ONE entry [0..6) [a,a] (attribute b lost).  `eq` now checks both inclusions and no
+//   length.  units/ids_attrs/replay.rs replays the witness through the public API.
 //
 // EXTRACTOR GAPS
 //   * `X.iter().all(|a| P)`: this Verus ACCEPTS the call (Iterator is an external trait spec) but vstd gives `all` NO postcondition
 //     (the result is an arbitrary bool).  An `assume_specification` for `<slice::Iter<T> as Iterator>::all` is possible only through
 //     an uninterpreted proxy of `IteratorSpec::remaining` (direct use is rejected as a cyclic definition) and is not usable here:
-//     the call is the function's tail expression on a temporary iterator, no proof hint can follow it, and the quantifier
-//     triggers of vstd's `iter()` postcondition do not line up with a spec over the list.  A mechanical rule
-//     "X.iter().all(|a| P)" -> `vx_iter_all(&X, |a| P)` (like R2) or -> index loop (like R6) would replace the hand-written SUB
-//     (which has to sit in the unit-wide rules: `|` is the field separator of an extract line, and SUB values need balanced
+//     the calls are operands of the function's tail expression on temporary iterators, no proof hint can follow them, and the
+//     quantifier triggers of vstd's `iter()` postcondition do not line up with a spec over the list.  A mechanical rule
+//     "X.iter().all(|a| P)" -> `vx_iter_all(&X, |a| P)` (like R2) or -> index loop (like R6) would replace the hand-written SUBs
+//     (which have to sit in the unit-wide rules: `|` is the field separator of an extract line, and SUB values need balanced
 //     parentheses).
 //   * the inherited postcondition of a trait-method impl (PartialEq::eq: `obeys_eq_spec() ==> r == self.eq_spec(other)`) is
 //     reported by Verus at vstd's std_specs/cmp.rs:21; the runner maps that to line 21 of the assembled file and labels it
 //     `ids_attrs::?::post` (lemma level).  The clause is therefore spelled out as an own `ensures` of `eq` (ids_attrs::attrs_eq::post).
-//   * a lost structural anchor of a proof hint is dropped silently by the lenient splicer (I first wrote `stmt:expr
-//     ContentAttributes` for a tail expression that is classified `stmt:call ContentAttributes`).
+//   * a lost structural anchor of a proof hint is dropped silently by the lenient splicer (a tail expression
+//     `ContentAttributes(..)` is classified `stmt:call ContentAttributes`, not `stmt:expr`).
 //
 // Function bodies are pulled from /repo on every run by vx/extract.py.
-#![feature(allocator_api)]
 #![allow(unused_imports, unused_variables, unused_mut, dead_code, unused_parens, unused_braces)]
 use vstd::prelude::*;
 
 verus! {
 
-/*@rules R1 SUB(from=self.0.iter().all(|a| other.0.contains(a));;to=vx_iter_all(&self.0, |a| other.0.contains(a))) @*/
+/*@rules R1
+   SUB(from=self.0.iter().all(|a| other.0.contains(a));;to=vx_iter_all(&self.0, |a| other.0.contains(a)))
+   SUB(from=other.0.iter().all(|a| self.0.contains(a));;to=vx_iter_all(&other.0, |a| self.0.contains(a)))
+@*/
 
 pub mod vx_base {
     use vstd::prelude::*;
@@ -100,7 +87,6 @@ pub mod vx_attrs {
     use vstd::std_specs::cmp::{PartialEqSpec, PartialEqSpecImpl};
     use std::sync::Arc;
     use std::hash::Hash;
-    use core::alloc::Allocator;
     use super::vx_base::*;
 
     // ==========================================================================================
@@ -183,7 +169,7 @@ pub mod vx_attrs {
     // ==========================================================================================
     // 2. lists as sets: specs and lemmas (pure, generic in the element type)
     // ==========================================================================================
-    /// no two elements are equal
+    /// no two elements are equal (NOT an invariant of the type; used to state that merge introduces no duplicates)
     pub open spec fn nodup<E: PartialEq>(s: Seq<E>) -> bool {
         forall|i: int, j: int| #![trigger s[i], s[j]] 0 <= i < s.len() && 0 <= j < s.len() && i != j ==> !s[i].eq_spec(&s[j])
     }
@@ -193,9 +179,9 @@ pub mod vx_attrs {
         forall|i: int| 0 <= i < a.len() ==> occurs(b, #[trigger] a[i])
     }
 
-    /// what `<ContentAttributes as PartialEq>::eq` computes
-    pub open spec fn eq_real_spec<E: PartialEq>(a: Seq<E>, b: Seq<E>) -> bool {
-        a.len() == b.len() && sub(a, b)
+    /// what `<ContentAttributes as PartialEq>::eq` computes: mutual containment
+    pub open spec fn eq_set_spec<E: PartialEq>(a: Seq<E>, b: Seq<E>) -> bool {
+        sub(a, b) && sub(b, a)
     }
 
     /// set equality
@@ -220,89 +206,6 @@ pub mod vx_attrs {
         requires 0 <= i < s.len(), s[i].eq_spec(&x),
         ensures occurs(s, x),
     {
-    }
-
-    /// removing an element that is not needed keeps `sub`
-    proof fn lemma_sub_remove<E: PartialEq>(a: Seq<E>, b: Seq<E>, j: int)
-        requires
-            sub(a, b),
-            0 <= j < b.len(),
-            forall|i: int| #![trigger a[i]] 0 <= i < a.len() ==> !b[j].eq_spec(&a[i]),
-        ensures
-            sub(a, b.remove(j)),
-    {
-        let b2 = b.remove(j);
-        assert forall|i: int| 0 <= i < a.len() implies occurs(b2, #[trigger] a[i]) by {
-            let k = occ_idx(b, a[i]);
-            assert(0 <= k < b.len() && b[k].eq_spec(&a[i]));
-            assert(k != j);
-            if k < j {
-                assert(b2[k] == b[k]);
-                lemma_occurs_at(b2, k, a[i]);
-            } else {
-                assert(b2[k - 1] == b[k]);
-                lemma_occurs_at(b2, k - 1, a[i]);
-            }
-        }
-    }
-
-    /// PIGEONHOLE: a duplicate-free list all of whose elements occur in `b` is not longer than `b`
-    pub proof fn lemma_pigeonhole<E: PartialEq>(a: Seq<E>, b: Seq<E>)
-        requires
-            eq_equiv::<E>(),
-            nodup(a),
-            sub(a, b),
-        ensures
-            a.len() <= b.len(),
-        decreases a.len(),
-    {
-        if a.len() > 0 {
-            let n = a.len() - 1;
-            let x = a[n];
-            let a2 = a.drop_last();
-            let j = occ_idx(b, x);
-            assert(0 <= j < b.len() && b[j].eq_spec(&x));
-            assert forall|i: int, k: int| #![trigger a2[i], a2[k]] 0 <= i < a2.len() && 0 <= k < a2.len() && i != k implies !a2[i].eq_spec(&a2[k]) by {
-                assert(a2[i] == a[i] && a2[k] == a[k]);
-            }
-            assert forall|i: int| 0 <= i < a2.len() implies occurs(b, #[trigger] a2[i]) by {
-                assert(a2[i] == a[i]);
-            }
-            assert forall|i: int| #![trigger a2[i]] 0 <= i < a2.len() implies !b[j].eq_spec(&a2[i]) by {
-                assert(a2[i] == a[i]);
-                if b[j].eq_spec(&a[i]) {
-                    // a[i] ~ b[j] ~ x = a[n], i != n: a duplicate
-                    assert(a[i].eq_spec(&b[j]));
-                    assert(a[i].eq_spec(&a[n]));
-                }
-            }
-            lemma_sub_remove(a2, b, j);
-            lemma_pigeonhole(a2, b.remove(j));
-        }
-    }
-
-    /// "a no-dup list of length n all of whose elements occur in a list of length n covers it"
-    pub proof fn lemma_covers<E: PartialEq>(a: Seq<E>, b: Seq<E>)
-        requires
-            eq_equiv::<E>(),
-            nodup(a),
-            sub(a, b),
-            a.len() == b.len(),
-        ensures
-            sub(b, a),
-    {
-        assert forall|j: int| 0 <= j < b.len() implies occurs(a, #[trigger] b[j]) by {
-            if !occurs(a, b[j]) {
-                assert forall|i: int| #![trigger a[i]] 0 <= i < a.len() implies !b[j].eq_spec(&a[i]) by {
-                    if b[j].eq_spec(&a[i]) {
-                        assert(a[i].eq_spec(&b[j]));
-                        lemma_occurs_at(a, i, b[j]);
-                    }
-                }
-                lemma_sub_remove(a, b, j);
-                lemma_pigeonhole(a, b.remove(j));
-            }
-        }
     }
 
     pub proof fn lemma_sub_refl<E: PartialEq>(a: Seq<E>)
@@ -343,17 +246,14 @@ pub mod vx_attrs {
         }
     }
 
-    /// (1) ON WF VALUES the real `eq` is set equality
+    /// (1) the real `eq` is set equality, for ALL lists
     pub proof fn lemma_eq_is_set_equality<E: PartialEq>(a: Seq<E>, b: Seq<E>)
         requires
             eq_equiv::<E>(),
-            nodup(a),
-            nodup(b),
         ensures
-            eq_real_spec(a, b) <==> same_set(a, b),
+            eq_set_spec(a, b) <==> same_set(a, b),
     {
-        if eq_real_spec(a, b) {
-            lemma_covers(a, b);
+        if eq_set_spec(a, b) {
             assert forall|x: E| occurs(a, x) <==> occurs(b, x) by {
                 if occurs(a, x) { lemma_sub_occurs(a, b, x); }
                 if occurs(b, x) { lemma_sub_occurs(b, a, x); }
@@ -366,46 +266,36 @@ pub mod vx_attrs {
             assert forall|i: int| 0 <= i < b.len() implies occurs(a, #[trigger] b[i]) by {
                 lemma_occurs_at(b, i, b[i]);
             }
-            lemma_pigeonhole(a, b);
-            lemma_pigeonhole(b, a);
         }
     }
 
-    /// symmetry of the real `eq` needs wf of the LEFT operand only
-    pub proof fn lemma_eq_sym<E: PartialEq>(a: Seq<E>, b: Seq<E>)
-        requires eq_equiv::<E>(), nodup(a), eq_real_spec(a, b),
-        ensures eq_real_spec(b, a),
-    {
-        lemma_covers(a, b);
-    }
-
-    /// FINDING witness: without wf the real `eq` is NOT symmetric.  For any two different attributes a, b:
-    /// [a, a] == [a, b] but [a, b] != [a, a].
-    pub proof fn lemma_witness_asymmetry<E: PartialEq>(a: E, b: E)
+    /// the witness of the REPAIRED defect (old `eq`: [a, a] == [a, b] but [a, b] != [a, a]).  For any two different attributes
+    /// a, b: [a, a] and [a, b] are unequal in BOTH directions, and a duplicate does not matter: [a, a] ~ [a] in both directions.
+    pub proof fn lemma_witness_repaired<E: PartialEq>(a: E, b: E)
         requires
             eq_equiv::<E>(),
             !a.eq_spec(&b),
         ensures
-            !nodup(seq![a, a]),
-            nodup(seq![a, b]),
-            eq_real_spec(seq![a, a], seq![a, b]),
-            !eq_real_spec(seq![a, b], seq![a, a]),
-            !same_set(seq![a, a], seq![a, b]),
+            !eq_set_spec(seq![a, a], seq![a, b]),
+            !eq_set_spec(seq![a, b], seq![a, a]),
+            eq_set_spec(seq![a, a], seq![a]),
+            eq_set_spec(seq![a], seq![a, a]),
     {
         let x = seq![a, a];
         let y = seq![a, b];
-        assert(x[0].eq_spec(&x[1]));
-        assert(!b.eq_spec(&a));
-        assert forall|i: int| 0 <= i < x.len() implies occurs(y, #[trigger] x[i]) by {
-            lemma_occurs_at(y, 0, x[i]);
-        }
+        let z = seq![a];
         if occurs(x, y[1]) {
             let k = occ_idx(x, y[1]);
             assert(x[k].eq_spec(&b));
         }
         assert(!occurs(x, y[1]));
-        lemma_occurs_at(y, 1, b);
-        assert(occurs(y, b) && !occurs(x, b));
+        assert(!sub(y, x));
+        assert forall|i: int| 0 <= i < x.len() implies occurs(z, #[trigger] x[i]) by {
+            lemma_occurs_at(z, 0, x[i]);
+        }
+        assert forall|i: int| 0 <= i < z.len() implies occurs(x, #[trigger] z[i]) by {
+            lemma_occurs_at(x, 0, z[i]);
+        }
     }
 
     // ---- merge_seq ---------------------------------------------------------------------------------------------------
@@ -465,11 +355,11 @@ pub mod vx_attrs {
         }
     }
 
-    /// merge keeps `a` as a prefix (nothing is removed or reordered) and keeps wf
-    pub proof fn lemma_merge_seq_wf<E: PartialEq>(a: Seq<E>, b: Seq<E>)
-        requires eq_equiv::<E>(), nodup(a),
+    /// merge keeps `a` as a prefix (nothing is removed or reordered) and introduces no duplicates
+    pub proof fn lemma_merge_seq_prefix<E: PartialEq>(a: Seq<E>, b: Seq<E>)
+        requires eq_equiv::<E>(),
         ensures
-            nodup(merge_seq(a, b)),
+            nodup(a) ==> nodup(merge_seq(a, b)),
             a.len() <= merge_seq(a, b).len(),
             merge_seq(a, b).subrange(0, a.len() as int) == a,
         decreases b.len(),
@@ -479,9 +369,9 @@ pub mod vx_attrs {
             assert(r.subrange(0, a.len() as int) =~= a);
         } else {
             let m = merge_seq(a, b.drop_last());
-            lemma_merge_seq_wf(a, b.drop_last());
+            lemma_merge_seq_prefix(a, b.drop_last());
             if !occurs(m, b.last()) {
-                lemma_nodup_push(m, b.last());
+                if nodup(a) { lemma_nodup_push(m, b.last()); }
                 assert(r.subrange(0, a.len() as int) =~= m.subrange(0, a.len() as int));
             }
         }
@@ -564,7 +454,7 @@ pub mod vx_attrs {
         }
 
         open spec fn eq_spec(&self, other: &Self) -> bool {
-            eq_real_spec(self@, other@)
+            eq_set_spec(self@, other@)
         }
     }
 
@@ -574,35 +464,32 @@ pub mod vx_attrs {
         @sig
             // the inherited contract of PartialEq::eq is `obeys_eq_spec() ==> r == self.eq_spec(other)`; spelled out:
             ensures
-                <ContentAttribute<A> as PartialEqSpec>::obeys_eq_spec() ==> r == (self@.len() == other@.len() && sub(self@, other@)),
+                <ContentAttribute<A> as PartialEqSpec>::obeys_eq_spec() ==> r == (sub(self@, other@) && sub(other@, self@)),
         @closure 1 `|a: &ContentAttribute<A>| -> (found: bool)`
             ensures <ContentAttribute<A> as PartialEqSpec>::obeys_eq_spec() ==> found == occurs(other@, *a),
+        @closure 2 `|a: &ContentAttribute<A>| -> (found: bool)`
+            ensures <ContentAttribute<A> as PartialEqSpec>::obeys_eq_spec() ==> found == occurs(self@, *a),
         @*/
     }
 
-    // (the real impl block is `impl<A> ContentAttributes<A>`; `A: PartialEq` is needed to state wf)
-    impl<A: PartialEq> ContentAttributes<A> {
+    impl<A> ContentAttributes<A> {
         /*@extract yrs/src/id_map.rs | impl<A> ContentAttributes<A> | fn new | label=attrs_new
         @ret r
         @sig
-            ensures
-                r@ == Seq::<ContentAttribute<A>>::empty(),
-                nodup(r@),
+            ensures r@ == Seq::<ContentAttribute<A>>::empty(),
         @*/
 
         /*@extract yrs/src/id_map.rs | impl<A> ContentAttributes<A> | fn from_attrs
         @ret r
         @sig
-            ensures
-                r@ == attrs@,
-                // FINDING: the caller's vector is taken as is; from_attrs(smallvec![a.clone(), a]) is not wf
-                nodup(r@),
+            // the caller's list is taken as is (duplicates included): every list is a valid value now
+            ensures r@ == attrs@,
         @*/
     }
 
     impl<A: PartialEq + Eq + Hash + Clone> Merge for ContentAttributes<A> {
         open spec fn wf(&self) -> bool {
-            nodup(self@)
+            true
         }
 
         open spec fn merge_spec(&self, other: &Self) -> Self {
@@ -614,7 +501,6 @@ pub mod vx_attrs {
             // inherited from the trait: requires old(self).wf(), other.wf(); ensures final(self).wf(), *final(self) == old(self).merge_spec(other).
             // spelled out over the lists:
             ensures
-                nodup(final(self)@),
                 final(self)@ == merge_seq(old(self)@, other@),
         @start
             let ghost a0 = self@;
@@ -628,10 +514,8 @@ pub mod vx_attrs {
                 a0 == old(self)@,
                 b == other@,
                 <ContentAttribute<A> as PartialEqSpec>::obeys_eq_spec(),
-                eq_equiv::<ContentAttribute<A>>(),
                 it.seq().len() == b.len(),
                 forall|j: int| 0 <= j < b.len() ==> *(#[trigger] it.seq()[j]) == b[j],
-                nodup(self@),
                 self@ == merge_seq(a0, b.take(it.index@ as int)),
         @before 1 `stmt:if`
             let ghost k = it.index@ as int;
@@ -644,7 +528,6 @@ pub mod vx_attrs {
         @after 1 `stmt:call push`
             proof {
                 assert(self@ == m.push(b[k]));
-                lemma_nodup_push(m, b[k]);
             }
         @end
             proof {
@@ -665,104 +548,24 @@ pub mod vx_attrs {
         }
 
         proof fn law_eq_sym(&self, b: &Self) {
-            axiom_attr_eq_is_equivalence::<A>();
-            lemma_eq_sym(self@, b@);
+            // mutual containment is symmetric by its form
         }
 
         proof fn law_eq_trans(&self, b: &Self, c: &Self) {
             axiom_attr_eq_is_equivalence::<A>();
             lemma_sub_trans(self@, b@, c@);
+            lemma_sub_trans(c@, b@, self@);
         }
 
         proof fn law_merge_idem(&self, b: &Self) {
             axiom_attr_eq_is_equivalence::<A>();
-            // a ~ b: every element of b occurs in a (pigeonhole), so the loop appends nothing
-            lemma_covers(self@, b@);
+            // a ~ b: every element of b occurs in a, so the loop appends nothing
             lemma_merge_seq_absorb(self@, b@);
             let r = self.merge_spec(b);
             assert(self@ == merge_seq(self@, b@));
             assert(r@ == merge_seq(self@, b@));
             lemma_sub_refl(self@);
         }
-    }
-
-
-    // ==========================================================================================
-    // 4. FINDING: is every value that reaches the interval layer through the public API wf?
-    // ==========================================================================================
-    // ContentAttributes::from_attrs: see the `nodup(r@)` clause above (ids_attrs::from_attrs::post).
-    //
-    // IdMap::insert(range, attrs):  { ..; let mut attrs = attrs; self.ensure_attrs(&mut attrs);
-    //                                 let content_attrs = ContentAttributes(attrs.into()); self.inner.insert_range(.., content_attrs) }
-    // `ensure_attrs` replaces every element by an `==` one from the interning cache (it neither removes nor reorders), so the
-    // statement that builds the value is lifted (R18) with `attrs` as parameter.  ids_lift::idmap_insert REQUIRES
-    // `content_attrs.wf()` for the value built here.
-    /*@extract yrs/src/id_map.rs | impl<A: PartialEq + Eq + Hash + Clone> IdMap<A> | region insert | stmt=stmt:let content_attrs | tail=content_attrs | label=idmap_insert_attrs | rules=SUB(from=attrs.into();;to=attrs)
-    @header
-        fn idmap_insert_attrs<A: PartialEq + Eq + Hash + Clone>(attrs: Vec<ContentAttribute<A>>) -> (content_attrs: ContentAttributes<A>)
-    @sig
-        ensures
-            content_attrs@ == attrs@,
-            // FINDING: the caller's Vec is wrapped as is; insert(range, vec![a.clone(), a]) stores a value that is not wf
-            content_attrs.wf(),
-    @*/
-
-    /// what std `Vec::dedup` keeps: an element is dropped iff it is `==` to the last element kept before it
-    pub open spec fn dedup_adj<E: PartialEq>(s: Seq<E>) -> Seq<E>
-        decreases s.len(),
-    {
-        if s.len() == 0 {
-            s
-        } else {
-            let d = dedup_adj(s.drop_last());
-            if d.len() > 0 && s.last().eq_spec(&d.last()) { d } else { d.push(s.last()) }
-        }
-    }
-
-    /// std `Vec::dedup` (A2; SmallVec::dedup has the same documentation): "Removes consecutive repeated elements in the vector
-    /// according to the PartialEq trait implementation. If the vector is sorted, this removes all duplicates."
-    /// (std: `self.dedup_by(|a, b| a == b)`, `a` the element under test, `b` the previously retained one)
-    pub assume_specification<T: PartialEq, A: Allocator>[ Vec::<T, A>::dedup ](v: &mut Vec<T, A>)
-        ensures
-            T::obeys_eq_spec() ==> final(v)@ == dedup_adj(old(v)@),
-    ;
-
-    // IdMap::from_set(id_set, attrs): { ..; let mut attrs: SmallVec<_> = attrs.into(); attrs.dedup(); id_map.ensure_attrs(&mut attrs);
-    //                                   let content_attrs = ContentAttributes(attrs); .. insert_with(range, content_attrs.clone()) .. }
-    // the only constructor that tries to establish wf: `dedup` removes ADJACENT duplicates only.
-    /*@extract yrs/src/id_map.rs | impl<A: PartialEq + Eq + Hash + Clone> IdMap<A> | region from_set | stmt=stmt:let attrs | upto=stmt:let content_attrs | tail=content_attrs | label=idmap_from_set_attrs | rules=SUB(from=attrs.into();;to=attrs)
-    @header
-        fn idmap_from_set_attrs<A: PartialEq + Eq + Hash + Clone>(attrs: Vec<ContentAttribute<A>>) -> (content_attrs: ContentAttributes<A>)
-    @drop `id_map.ensure_attrs(&mut attrs);`
-    @sig
-        ensures
-            content_attrs@ == dedup_adj(attrs@),
-            // FINDING: from_set(set, vec![a.clone(), b, a]) stores [a, b, a]
-            content_attrs.wf(),
-    @start
-        proof { axiom_attr_eq_is_equivalence::<A>(); }
-    @*/
-
-    /// [a, b, a] (a != b) survives `dedup`
-    pub proof fn lemma_witness_dedup<E: PartialEq>(a: E, b: E)
-        requires eq_equiv::<E>(), !a.eq_spec(&b),
-        ensures
-            dedup_adj(seq![a, b, a]) == seq![a, b, a],
-            !nodup(seq![a, b, a]),
-    {
-        let s3 = seq![a, b, a];
-        let s2 = seq![a, b];
-        let s1 = seq![a];
-        let s0 = Seq::<E>::empty();
-        assert(s3.drop_last() =~= s2 && s2.drop_last() =~= s1 && s1.drop_last() =~= s0);
-        assert(dedup_adj(s0) == s0);
-        assert(dedup_adj(s1) =~= s1);
-        assert(!b.eq_spec(&a));
-        assert(s2.last() == b && s1.last() == a);
-        assert(dedup_adj(s2) =~= s2);
-        assert(s3.last() == a && s2.last() == b);
-        assert(dedup_adj(s3) =~= s3);
-        assert(s3[0].eq_spec(&s3[2]));
     }
 }
 
